@@ -927,6 +927,11 @@ class Built(object):
             self.fault_log.append((pos, fault))
             if rec is not None:
                 rec.disable_recording()
+        if fault == 'reenable':
+            # a configuration sync that becomes due mid-request switches recording ON again although it already is on (idempotent)
+            self.fault_log.append((pos, fault))
+            if rec is not None:
+                rec.enable_recording()
         op = s['op']
         if op in ('in', 'out'):
             d = self.decls[s['decl']]
